@@ -261,6 +261,10 @@ class USBInTransferManager(Elaboratable):
             with m.State("WAIT_TO_SEND"):
                 m.d.usb += send_position .eq(0),
 
+                # Always prefetch the first byte of the packet: ``send_position`` may still hold the
+                # position reached in the previous packet during our first cycle in this state.
+                m.d.comb += buffer_read.addr.eq(0)
+
                 # If discarding data, go back to waiting for new data.
                 with m.If(self.discard):
                     # Undo the data PID toggle.
